@@ -18,3 +18,11 @@ claim("C03", "runtime totality monitor in child processes (escaped-panic / proce
       "Generated programs over every operator, keyword, builtin and data/host-function name are evaluated by the real Runner.Resolve against generated data maps (odd kinds, typed maps, structs, nil pointers, host functions); each child writes a breadcrumb before every call so a fatal runtime error is attributed and re-confirmed in a fresh child. Misuse templates of the statement's classes must return an error. Two crash inputs are recorded as known findings and re-observed by probe children.",
       "Trusts Go's runtime traps (panic/fatal error) as the crash observation and the hook at the evaluator's dispatch for the visit count; pad lengths are bounded structurally as the statement says.",
       "5/C03")
+claim("C04", "reference-model monitor: exact big-integer decimal arithmetic (half-even to 34 digits) compared with the values the real evaluator produces",
+      "Literal operand pairs and parenthesised chains are evaluated by the real evaluator inside `[e]` and the resulting decimal (read through its decomposition) must equal the model's; Go float64/int/int32/int64 data values must enter as the decimal they print as and be === to that literal; the float64 handed back must be the nearest one in the statement's exact domain and within 4 ulp elsewhere; a host function must receive the same decimal.",
+      "Trusts math/big and the 150-line decimal model; decimal.Big.Decompose for reading results; strconv for the shortest round-trip text of floats.",
+      "5/C04")
+claim("C05", "law-checking monitor over an exhaustive value grid: eight operator results per ordered pair checked against the exact order model",
+      "Every ordered pair of a grid of ~100-200 values (several spellings of equal and neighbouring numbers, arithmetic results, -0, 34-digit neighbours, Go data numbers, strings, booleans, nulls) is evaluated under all eight operators; trichotomy, agreement with numeric / byte-wise order, the disjunction laws, strict-equality kind rules and the negation laws are checked on the eight results together.",
+      "Trusts the decimal model's Cmp and bytes.Compare; cross-kind relational results are unspecified.",
+      "5/C05")
